@@ -1,5 +1,5 @@
 /- C01 — property theorems (in progress). -/
-import Proofs.Lemmas.AoefLoad
+import Proofs.Lemmas.AoefRoundtrip
 namespace SE.Proofs.C01
 
 end SE.Proofs.C01
